@@ -27,7 +27,9 @@ LAM = [0.0, 1e-3, 1.0, 1e3, 1e9]
 CHI = [0.0, 0.25, 1.0]
 
 
-def case_brinkmann(variant, dim, field_type, dtype):
+def case_brinkmann(variant, dim, field_type, dtype, inplace=False):
+    """inplace: the field is penalised IN PLACE (the output array is the field array itself), which an
+    element-wise law allows and callers use."""
     import sopht.numeric.eulerian_grid_ops as spne
 
     real_t = np.dtype(dtype).type
@@ -39,7 +41,7 @@ def case_brinkmann(variant, dim, field_type, dtype):
     ub = np.array([c[1] for c in combos], dtype=real_t).reshape(shape)
     chi = np.array([c[2] for c in combos], dtype=real_t).reshape(shape)
     fails = []
-    tag = f"brinkmann:{variant}_{dim}d:{field_type}"
+    tag = f"brinkmann:{variant}_{dim}d:{field_type}" + (":in-place" if inplace else "")
     ncomp = dim if field_type == "vector" else 1
     prev_dist = None
     states = 0
@@ -54,7 +56,11 @@ def case_brinkmann(variant, dim, field_type, dtype):
                 uu = np.stack([u.ravel()] * dim)
                 bb = np.stack([ub.ravel()] * dim)
                 for lam_dt in ((lam, 1.0), (np.sqrt(lam), np.sqrt(lam))):
-                    BrinkmannBoundaryForcing.brinkmann_penalise_lag_grid_velocity_field(out, uu, bb, real_t(lam_dt[0]), real_t(lam_dt[1]))
+                    if inplace:
+                        out = uu.copy()
+                        BrinkmannBoundaryForcing.brinkmann_penalise_lag_grid_velocity_field(out, out, bb, real_t(lam_dt[0]), real_t(lam_dt[1]))
+                    else:
+                        BrinkmannBoundaryForcing.brinkmann_penalise_lag_grid_velocity_field(out, uu, bb, real_t(lam_dt[0]), real_t(lam_dt[1]))
                 outs = [out[0].reshape(shape)]
                 chi_eff = np.ones(shape, dtype=real_t)
                 target = ub
@@ -66,15 +72,16 @@ def case_brinkmann(variant, dim, field_type, dtype):
                     k = getattr(spne, f"gen_brinkmann_penalise_pyst_kernel_{dim}d")(real_t=real_t, field_type=field_type)
                     target = ub
                 if field_type == "scalar":
-                    out = np.full(shape, np.nan, dtype=real_t)
+                    f_in = u.copy()
+                    out = f_in if inplace else np.full(shape, np.nan, dtype=real_t)
                     if variant == "fixed":
-                        k(penalised_field=out, field=u.copy(), char_field=chi.copy(), penalty_factor=lam, penalty_val=fv)
+                        k(penalised_field=out, field=f_in, char_field=chi.copy(), penalty_factor=lam, penalty_val=fv)
                     else:
-                        k(penalised_field=out, field=u.copy(), char_field=chi.copy(), penalty_field=ub.copy(), penalty_factor=lam)
+                        k(penalised_field=out, field=f_in, char_field=chi.copy(), penalty_field=ub.copy(), penalty_factor=lam)
                     outs = [out]
                 else:
-                    out = np.full((ncomp, *shape), np.nan, dtype=real_t)
                     vec_u = np.stack([u * (1 if c == 0 else -0.5 * c) for c in range(ncomp)]).astype(real_t)
+                    out = vec_u if inplace else np.full((ncomp, *shape), np.nan, dtype=real_t)
                     if variant == "fixed":
                         k(penalised_vector_field=out, penalty_factor=lam, char_field=chi.copy(), penalty_val=[fv * (1 if c == 0 else -0.5 * c) for c in range(ncomp)], vector_field=vec_u)
                     else:
@@ -333,6 +340,7 @@ def run(r) -> None:
     br = [dict(variant="field", dim=d, field_type=ft, dtype=dt) for d in (2, 3) for ft in ("scalar", "vector") for dt in dts]
     br += [dict(variant="fixed", dim=2, field_type=ft, dtype=dt) for ft in ("scalar", "vector") for dt in dts]
     br += [dict(variant="lagrangian", dim=d, field_type="scalar", dtype=dt) for d in (2, 3) for dt in dts]
+    br += [dict(c, inplace=True) for c in br]  # every variant also with the field penalised in place
     r.run_cases("brinkmann", "brinkmann", br)
     r.run_cases("characteristic-function", "charfunc", [dict(dim=d, dtype=dt, bw=bw) for d in (2, 3) for dt in dts for bw in (0.1, 1.0 / 3.0)])
     damp = []
